@@ -470,8 +470,17 @@ def run_case(case):
 
         def notify(self, event):
             self.events.append((event.event_type.name, event.content))
+            if event.event_type.name == "INITIALIZED_EVENT":
+                # the statistic announces that it has been reset: at this moment it reports no observations
+                try:
+                    self.at_init.append(event.content.n())
+                except Exception as e:                            # noqa: BLE001
+                    self.at_init.append("raises:" + type(e).__name__)
+
+        at_init = []
 
     out = Outcome()
+    Rec.at_init = []
     variant, via = case["variant"], case.get("via", "register")
     out.label("variant=" + variant)
     for key, part in zip(("values=", "weights=", "clock="), str(case.get("cls", "")).split("/")):
@@ -727,6 +736,8 @@ def _run_weighted(ctx):
                 stat.initialize()
             except Exception as e:                                # noqa: BLE001
                 out.fail("initialize-raises:" + type(e).__name__, repr(e))
+            if rec is not None and any(x != 0 for x in rec.at_init):
+                out.fail("publish:initialized-event-before-reset", {"n_seen_by_listener": rec.at_init[-3:]})
             if m.n:
                 out.label("initialize-after-observations")
             m.reset()
@@ -902,6 +913,8 @@ def _run_timed(ctx):
                 stat.initialize()
             except Exception as e:                                # noqa: BLE001
                 out.fail("initialize-raises:" + type(e).__name__, repr(e))
+            if rec is not None and any(x != 0 for x in rec.at_init):
+                out.fail("publish:initialized-event-before-reset", {"n_seen_by_listener": rec.at_init[-3:]})
             if last is not None:
                 out.label("initialize-after-observations")
                 base = last
